@@ -83,7 +83,7 @@ def run(tier, v):
     b = vlib.harness_build()
     d = vlib.scratch()
     out = os.path.join(d, "runs.ndjson")
-    vlib.run_driver(b, ["responses", "-out", out, "-mix", "40" if thorough else "6", "-workers", "8"], timeout=2400)
+    vlib.run_driver(b, ["responses", "-out", out, "-mix", "150" if thorough else "6", "-workers", "8"], timeout=2400)
     rows, tr = validate(v, out)
     letters = {(r_["gun"], r_["posts"], letter_name(x)) for r_ in rows for x in r_["ammo"]}
     samples = []
